@@ -33,8 +33,8 @@ check(
 check(
     "C12",
     "other",
-    "bounded symbolic verification of the decision functions that mirror CPython rules: reachability (consider_sys_version_info / consider_sys_platform / infer_condition_value: expression shapes enumerated, every int/str parameter and the target version symbolic; a definite answer must equal the runtime value), constant folding (folded value = the Python operator's value, for every operand), plus the arity/MRO kernels when present (see evidence sections). Counterexamples are replayed with the real mypy command against CPython before being reported.",
-    "trusted: z3, pysem table, the runtime model sys.version_info=(major, minor, micro>=0, 'final', serial>=0); bitwise/float-libm operators uninterpreted; known findings: open-ended version_info comparisons (known_findings.json)",
+    "bounded symbolic verification of the decision functions that mirror CPython rules: reachability (consider_sys_version_info / consider_sys_platform / infer_condition_value: expression shapes enumerated, every int/str parameter and the target version symbolic; a definite answer must equal the runtime value), constant folding (folded value = the Python operator's value, for every operand), argument binding (the real argmap.map_actuals_to_formals and ExpressionChecker.check_argument_count on solver-chosen signatures x precise call shapes, oracle = CPython binding the same call), MRO kernel when present (see evidence sections). Counterexamples are replayed with the real mypy command against CPython before being reported.",
+    "trusted: z3, pysem table, the runtime model sys.version_info=(major, minor, micro>=0, 'final', serial>=0); bitwise/float-libm operators uninterpreted; known findings: open-ended version_info comparisons; duplicate keywords through **TypedDict (known_findings.json)",
     "symbolic execution of real Python source with z3 (decision-replay) + replay against CPython",
     "DESIGN.md 4/C12",
 )
@@ -42,7 +42,7 @@ check(
 check(
     "C13",
     "other",
-    "bounded symbolic verification of the exit-status chain: the real Errors.format_messages_default, util.count_stats and the status expressions extracted from main.main and dmypy_server on every run are executed on symbolic diagnostics (bounded strings as bit-vector character arrays); obligation: status 0 iff no error-severity diagnostic, 2 iff blockers. Ignore-comment exactness is covered by the K1 section when present in evidence.",
+    "bounded symbolic verification of the exit-status chain: the real Errors.format_messages_default, util.count_stats and the status expressions extracted from main.main and dmypy_server on every run are executed on symbolic diagnostics (bounded strings as bit-vector character arrays); obligation: status 0 iff no error-severity diagnostic, 2 iff blockers. (K1) ignore / error-code exactness: the real Errors.add_error_info/is_ignored_error/is_error_code_enabled/generate_unused_ignore_errors and the gate State.generate_unused_ignore_notes driven through the Errors API with solver-chosen errors (line, code, sub-code, blocker), ignore comments (bare, coded, parent codes, several codes, unused-ignore), code states and --warn-unused-ignores; an error is shown iff blocker or enabled and unmatched, unused-ignore appears iff switched on and the comment (or a listed code) suppressed nothing.",
     "trusted: z3; file names contain no ':'; --pretty source lines outside the bound; message text printable ASCII up to the stated length",
     "symbolic execution of real Python source with z3 over bounded bit-vector strings",
     "DESIGN.md 4/C13",
@@ -60,7 +60,7 @@ check(
 check(
     "C03",
     "other",
-    "bounded symbolic verification of the daemon's change detection (FileSystemWatcher._find_changed/_update on a stub file system, one step from an arbitrary recorded state) and of the symbol-table snapshot differ (astdiff.compare_symbol_table_snapshots against an independent specification over symbolic snapshots). Narrow: dependency generation, AST merge/strip and propagation are whole-program code and are not claimed.",
+    "bounded symbolic verification of the daemon's change detection (FileSystemWatcher._find_changed/_update on a stub file system, one step from an arbitrary recorded state) of the symbol-table snapshot differ (astdiff.compare_symbol_table_snapshots against an independent specification over symbolic snapshots), of snapshot_symbol_table/snapshot_definition on real symbol nodes with symbolic kind / module_public / externally visible flags (equal snapshots imply equal visible attributes) and of which triggers DependencyVisitor.add_dependency refuses to record (bounded symbolic strings: exactly those of builtins/typing/mypy_extensions/typing_extensions). Narrow: dependency generation as a whole, AST merge/strip and propagation are whole-program code and are not claimed.",
     "trusted: z3; contract 'a content change changes size or real-valued mtime'; hash injective. Known finding: same-second same-size edit is missed by the daemon.",
     "symbolic execution of real Python source with z3 (decision-replay), replay through in-process dmypy Server vs fresh run",
     "DESIGN.md 4/C03",
@@ -98,9 +98,9 @@ check(
 check(
     "C11",
     "other",
-    "bounded symbolic / typed-token verification of the cache serialisers: (K2a) flat records (CacheMeta, CacheMetaEx with error tuples, DataclassTransformSpec) with every int/bool field a symbolic term are pushed through write->read and serialize->deserialize; the same term must come back in the same field, the reader must consume exactly the writer's token kinds, and the two formats must agree (z3 decides term equality and yields distinguishing field values); (K2b) every module interface of a real build of a feature-rich sample (plus the typeshed modules it imports) is written to a typed token buffer, read back (incl. the lazy extract_symbol skipping, transcribed from the C source), fixed up and written again, the same through JSON, and all streams/dicts must coincide. Counterexamples are replayed through the real librt buffers and json as structural dumps before/after load.",
-    "trusted: z3; the typed token buffer as a model of librt.internal's byte buffers (the byte codec itself is only covered when the K1 section is present); module coverage = sample + imported typeshed modules; byte determinism across hash seeds is C10",
-    "symbolic execution of the real (de)serialisers over a typed token stream with symbolic field terms; z3",
+    "bounded symbolic / typed-token verification of the cache serialisers: (K2a) flat records (CacheMeta, CacheMetaEx with error tuples, DataclassTransformSpec) with every int/bool field a symbolic term are pushed through write->read and serialize->deserialize; the same term must come back in the same field, the reader must consume exactly the writer's token kinds, and the two formats must agree (z3 decides term equality and yields distinguishing field values); (K2b) every module interface of a real build of a feature-rich sample (plus the typeshed modules it imports) is written to a typed token buffer, read back (incl. the lazy extract_symbol skipping, transcribed from the C source), fixed up and written again, the same through JSON, and all streams/dicts must coincide. Counterexamples are replayed through the real librt buffers and json as structural dumps before/after load. (K1) the byte codec of mypyc/lib-rt/internal/librt_internal.c: _write_short_int/_read_short_int/read,write_bool_internal/write_int_internal are cut out of the C file on every run, compiled with clang to LLVM IR against a scalar buffer stand-in and translated to z3 bit-vectors; round trip, byte counts, prefix dispatch and arbitrary-input behaviour at full 64-bit width, counterexamples replayed natively.",
+    "trusted: z3; the typed token buffer as a model of librt.internal's byte buffers (the short-int/bool byte codec is K1; long ints, str/bytes payloads and floats are copied by CPython/memcpy and are outside); module coverage = sample + imported typeshed modules; byte determinism across hash seeds is C10",
+    "symbolic execution of the real (de)serialisers over a typed token stream with symbolic field terms; LLVM IR -> SMT for the C byte codec; z3",
     "DESIGN.md 4/C11",
 )
 
@@ -144,7 +144,7 @@ check(
 check(
     "C07",
     "other",
-    "bounded symbolic verification of the coordinator's scheduling kernel: the scheduling loop extracted from build.process_graph and the real BuildManager.submit/submit_to_workers/get_scc_batch/max_batch_size/wait_for_done/wait_for_done_workers run on a shell manager with stubbed transport; the solver chooses the SCC DAG (3/4 SCCs), the size hints, the number of workers (1..3) and, at every wait, which busy workers' responses arrive, and for every ready wave which SCCs find_stale_sccs reports fresh (mixed fresh/stale waves). For every schedule: an SCC is sent only after its dependencies reported interface-done, every SCC is sent exactly once, a worker gets a batch only after its implementation response, the loop terminates with everything done, bookkeeping stays in range. Equality of diagnostics with the sequential build is not claimed (needs real workers).",
+    "bounded symbolic verification of the coordinator's scheduling kernel: the scheduling loop extracted from build.process_graph and the real BuildManager.submit/submit_to_workers/get_scc_batch/max_batch_size/wait_for_done/wait_for_done_workers run on a shell manager with stubbed transport; the solver chooses the SCC DAG (3/4 SCCs), the size hints, the number of workers (1..3) and, at every wait, which busy workers' responses arrive, and for every ready wave which SCCs find_stale_sccs reports fresh (mixed fresh/stale waves). For every schedule: an SCC is sent only after its dependencies reported interface-done, every SCC is sent exactly once, a worker gets a batch only after its implementation response, the loop terminates with everything done, bookkeeping stays in range. Worker side (W1): the real maybe_load_deps + State.reload_meta on solver-chosen DAGs, already-loaded sets and broadcast interface hashes - every dependency SCC is loaded once in order and carries the interface hash that is in the cache now. Equality of diagnostics with the sequential build is not claimed (needs real workers).",
     "trusted: z3; stubs for send/ready_to_read/receive/response decoding; find_stale_sccs replaced by a solver-chosen split; workers answer each batch with one interface and one implementation response",
     "symbolic execution of real Python source with z3 (decision-replay) over all completion orders within the bound, partitioned over processes",
     "DESIGN.md 4/C07",
